@@ -69,7 +69,7 @@ pub fn registry() -> Vec<Entry> {
                 "C06",
                 2600,
                 20_000,
-                600_000,
+                400_000,
                 "hostile inputs in five modes: character soup over a table with NUL, CR, quotes, backslashes, U+00A0, U+2028, BOM, emoji; token soup over the analyzer's own vocabulary (96 mnemonics/registers/directives/CSR names/labels, 40 boundary and malformed literals, punctuation); 1-4 line-level mutations of valid generated programs (delete/duplicate/swap/truncate line, drop operand, corrupt or insert a character, insert tokens) with LF or CRLF; 22 structural families (runs of '.', '(', newlines, quotes; n labels; huge .word list; huge comment / operand list / literal; n labels + n branches; nested loops; diamond chains; call chains; unterminated .macro; a function that leaves a saved register unrestored behind n balanced if/else blocks; the 12^3 grid of extreme immediates around sp; Unicode white space x 8 positions; a run of every character of the table (1 to 40 000) and of every token of the vocabulary (2 to 5 000); long lines ending in multi-byte characters x 5 indentations), enumerated at fixed sizes up to 20 000 (thorough 100 000), the crash-prone ones through the rva binary first; ten fixed include graphs on disk (self-inclusion and cycles under every spelling of the path, missing file, directory as file) x 3 modes; include graphs over 1-4 in-memory files with self-inclusion, cycles, missing and unquoted targets. Each case runs RVParser::run (library entry point) and the staged pipeline in-process under catch_unwind with a deterministic sweep limit, in the overflow-checked and in the release profile; a worker that dies (stack overflow, abort, OOM) is re-run alone to confirm. One case in 25 is also written to disk and linted by the rva binary (dev/release) in one of 9 output modes under a CPU-time limit. Work bound: sweeps <= 4*(4+2n) / 4+2n from hook counters. Non-trivial = reached the parser with a node or an error, or a structural family.",
                 &["a wall-clock watchdog expiry is inconclusive (exit 2), only the CPU-time limit and the sweep limit count as non-termination", "stack size is the default 8 MiB of the worker process"],
             );
@@ -80,7 +80,7 @@ pub fn registry() -> Vec<Entry> {
             "C07",
             400,
             600_000,
-            30_000_000,
+            12_000_000,
             "files of one statement per line (generated main+functions+data programs, every statement form) with 0-3 malformed/unsupported lines of 14 kinds inserted at random positions, LF/CRLF, with/without final newline, optionally cut into an included file. Or-A: every line with content is covered by a node or a parse error located on it; Or-B: nodes and errors of all other lines equal those of the file with the malformed lines deleted. Non-trivial = a malformed line with >= 3 good lines after it, or CRLF, or no final newline; distinct = different file contents.",
             &["line numbers are recomputed here from raw offsets", ".include lines are consumed by the parser and count as covered"],
         ),
